@@ -23,10 +23,10 @@ WC = "crate::columns::wrap_columns"
 _e(WC, "assert:Overflow:Mul", "{$2 k} ; {crate::core::display_width($5)}", ["A-mem"],
    "display_width(middle_gap)*(columns-1) overflowing usize means a row holding columns-1 copies of the gap "
    "could not exist in memory (gap >= 1 byte per column unit); excluded by the memory clause")
-_e(WC, "assert:Overflow:Mul", "{(Vec::len(crate::wrap::wrap(_,_)) Div $2) From::from((0 Lt (_ Rem _)))} ; {Iterator::next!(_)?Some.0}", ["C20.R3"],
+_e(WC, "assert:Overflow:Mul", "{(0 Lt (Vec::len(_) Rem $2)) (Vec::len(crate::wrap::wrap(_,_)) Div $2)} ; {Iterator::next!(_)?Some.0}", ["C20.R3"],
    "column_no * lines_per_column: column_no < columns; if lines_per_column >= 2 then columns < L <= isize::MAX and "
    "columns*lines_per_column < L + columns < 2^64; if it is <= 1 the product is < columns")
-_e(WC, "assert:Overflow:Add", "{(Vec::len(crate::wrap::wrap(_,_)) Div $2) From::from((0 Lt (_ Rem _))) Iterator::next!(_)?Some.0} ; {Iterator::next!(_)?Some.0}", ["C20.R3"],
+_e(WC, "assert:Overflow:Add", "{(0 Lt (Vec::len(_) Rem $2)) (Vec::len(crate::wrap::wrap(_,_)) Div $2) Iterator::next!(_)?Some.0} ; {Iterator::next!(_)?Some.0}", ["C20.R3"],
    "line_no + column_no*lines_per_column < lines_per_column*(columns) + lines_per_column <= L + 2*columns")
 
 BW = "crate::core::break_words"
